@@ -369,7 +369,7 @@ def check_tamper(case):
 
 # ---------------------------------------------------------------- termination on boundary arguments
 
-TB = [-2 ** 40, -37, -2, -1, -0.5, 0, 0.5, 0.999, 1, 1.01, 1.5, 1.9, 2, 2.5, 36, 36.5, 37, 3999, 4000, 2 ** 39, 10 ** 15, float('inf'), float('-inf'), float('nan'), '', 'a', 'aaa', '12', '1.5', None, True, False, '~', 'a~a*', [], ['a', 'aaa']]
+TB = [-2 ** 40, -37, -2, -1, -0.5, 0, 0.5, 0.999, 1, 1.01, 1.5, 1.9, 2, 2.5, 36, 36.5, 37, 3999, 4000, 2 ** 39, 10 ** 15, float('inf'), float('-inf'), float('nan'), '', 'a', 'aaa', '12', '1.5', None, True, False, '~', 'a~a*', [], ['a', 'aaa'], '0.00E+00', '#,##0.00']
 TB_SMALL = [-1, 0, 0.5, 1, 1.5, 2, float('inf'), float('nan'), '', 'a', 'aaa', None, '~', 'a~a*', [], ['a', 'aaa']]       # the values that decide loop bounds: all combinations of these at arity 3 and 4
 TFUNCS = [('BASE', 2), ('BASE', 3), ('ROMAN', 1), ('ROMAN', 2), ('ARABIC', 1), ('SUBSTITUTE', 3), ('SUBSTITUTE', 4), ('TEXT', 2), ('DEC2HEX', 1), ('DEC2HEX', 2), ('HEX2DEC', 1), ('DECIMAL', 2), ('CHAR', 1),
           ('ROUND', 2), ('ROUNDUP', 2), ('ROUNDDOWN', 2), ('CEILING', 2), ('FLOOR', 2), ('MOD', 2), ('QUOTIENT', 2), ('EDATE', 2), ('DATE', 3), ('TIME', 3), ('LEFT', 2), ('MID', 3), ('INDEX', 3), ('MATCH', 3), ('LARGE', 2),
@@ -421,10 +421,10 @@ def check_term(case):
 def pool():
     err = xl()
     return [None, True, False, 0, 1, -1, 2, 37, 255, 2.5, -0.5, 43000, float('inf'), float('nan'), '', 'qxz', '12', '1.5', '2019-11-20',
-            datetime.datetime(2019, 11, 20, 6, 0, 0), [1, 2, 3], [[1, 2], [3, 4]], [], err.NOT_AVAILABLE, 'q~z*', ['q~', 'qxz', '~']]
+            datetime.datetime(2019, 11, 20, 6, 0, 0), [1, 2, 3], [[1, 2], [3, 4]], [], err.NOT_AVAILABLE, 'q~z*', ['q~', 'qxz', '~'], '0.0E+0']
 
 
-NP = 26
+NP = 27
 
 
 def enum_arity(tier, shard, nshards):
